@@ -7,10 +7,20 @@ from concurrent.futures import ThreadPoolExecutor
 from . import common as c
 
 
-def split_trace(path, parts, outdir):
+def split_trace(path, parts, outdir, split_any=False):
     """Split an ndjson trace at reset events into about `parts` files. Returns [(file, first_line_no)]."""
     with open(path) as f:
         lines = f.readlines()
+    if split_any:
+        # events are independent of each other: cut anywhere
+        n = max(1, (len(lines) + parts - 1) // parts)
+        out = []
+        for k, a in enumerate(range(0, len(lines), n)):
+            p = os.path.join(outdir, "chunk%03d.ndjson" % k)
+            with open(p, "w") as f:
+                f.writelines(lines[a:a + n])
+            out.append((p, a, len(lines[a:a + n])))
+        return out, lines
     starts = [i for i, l in enumerate(lines) if l.startswith('{"ev":"reset"') or '"ev":"reset"' in l[:200]]
     if not starts or starts[0] != 0:
         raise c.Infra("trace %s does not start with a reset event" % path)
@@ -49,9 +59,9 @@ def write_cfg(path, spec_consts, invariants=(), properties=(), post=None, view=N
 
 
 def validate_trace(trace_spec, trace, deviations, workdir, parts=8, heap="3g", consts=None, no_checkmem=False,
-                   no_deviations=False):
+                   no_deviations=False, split_any=False):
     """Validate one trace file against a trace spec. Returns dict with accepted, fail_line, deviations, skips."""
-    chunks, lines = split_trace(trace, parts, workdir)
+    chunks, lines = split_trace(trace, parts, workdir, split_any=split_any)
     cfg = os.path.join(workdir, "trace.cfg")
     k = {} if no_deviations else {"Deviations": c.tla_set(deviations)}
     if not no_checkmem:
